@@ -216,7 +216,16 @@ def no_undefined_names(ctx, rule, select=lambda fi: True):
             ps = paths_of(ctx, fi, fi.cls.name if fi.cls else None)
         except AnalysisError:
             continue
-        names = sorted({e["name"] for p in ps for e in p.events if e.kind == "UNDEF"})
+        names = {e["name"] for p in ps for e in p.events if e.kind == "UNDEF"}
+        # a loop-carried local that has no value before the loop (`x += ...` in the body without an initialisation)
+        for p in ps:
+            for e in p.events:
+                for v in list(e.a.values()) + [p.retval]:
+                    if isinstance(v, tuple):
+                        for x in N.walk(v):
+                            if x[0] == "lv" and len(x) > 3 and x[3] is None and isinstance(x[1], str) and "." not in x[1]:
+                                names.add(x[1])
+        names = sorted(names)
         n += 1
         bad = [x for x in names if (fi.qual, x) not in UNDEF_FROZEN]
         ctx.ob(rule, fi, not bad, "%s binds every name before it reads it on every path%s" % (fi.qual, (" (unbound: %s)" % bad) if bad else ""), key="names bound",
